@@ -1695,7 +1695,8 @@ class LeCreditBasedChannel(utils.EventEmitter):
 
         # Check that we can start a new connection
         identifier = self.manager.next_identifier(self.connection)
-        if identifier in self.manager.le_coc_requests:
+        requests = self.manager.le_coc_requests.setdefault(self.connection.handle, {})
+        if identifier in requests:
             raise InvalidStateError('too many concurrent connection requests')
 
         # Create a future to wait for the response
@@ -1711,7 +1712,7 @@ class LeCreditBasedChannel(utils.EventEmitter):
             mps=self.mps,
             initial_credits=self.peer_credits,
         )
-        self.manager.le_coc_requests[identifier] = request
+        requests[identifier] = request
         self.send_control_frame(request)
 
         # Wait for the connection to succeed or fail
@@ -2060,7 +2061,7 @@ class ChannelManager:
     servers: dict[int, ClassicChannelServer]
     le_coc_channels: dict[int, dict[int, LeCreditBasedChannel]]
     le_coc_servers: dict[int, LeCreditBasedChannelServer]
-    le_coc_requests: dict[int, L2CAP_LE_Credit_Based_Connection_Request]
+    le_coc_requests: dict[int, dict[int, L2CAP_LE_Credit_Based_Connection_Request]]
     fixed_channels: dict[int, Callable[[int, bytes], Any] | None]
     pending_credit_based_connections: dict[
         int,
@@ -2092,7 +2093,9 @@ class ChannelManager:
             {}
         )  # LE CoC channels, mapped by connection and destination cid
         self.le_coc_servers = {}  # LE CoC - Servers accepting connections, by PSM
-        self.le_coc_requests = {}  # LE CoC connection requests, by identifier
+        self.le_coc_requests = (
+            {}
+        )  # LE CoC connection requests, by connection handle and identifier
         self.pending_credit_based_connections = (
             {}
         )  # Credit-based connection request contexts, by connection handle and identifier
@@ -2259,6 +2262,7 @@ class ChannelManager:
             for future, _ in pending_credit_based_connections.values():
                 if not future.done():
                     future.cancel("ACL disconnected")
+        self.le_coc_requests.pop(connection_handle, None)
         self.identifiers.pop(connection_handle, None)
 
     def send_pdu(
@@ -2736,7 +2740,8 @@ class ChannelManager:
         response: L2CAP_LE_Credit_Based_Connection_Response,
     ) -> None:
         # Find the pending request by identifier
-        if not (request := self.le_coc_requests.pop(response.identifier, None)):
+        requests = self.le_coc_requests.get(connection.handle, {})
+        if not (request := requests.pop(response.identifier, None)):
             logger.warning(color('!!! received response for unknown request', 'red'))
             return
 
